@@ -20,6 +20,7 @@ type fakeADS struct {
 	mu         sync.Mutex
 	streams    []*fakeStream
 	failCreate int // number of upcoming stream creations that fail
+	failFirst  int // number of upcoming streams whose first Send fails
 	created    chan *fakeStream
 	// autoReply, when set, is called (outside any lock) for every request a stream receives
 	autoReply func(s *fakeStream, req *discoveryv3.DiscoveryRequest)
@@ -37,6 +38,10 @@ func (a *fakeADS) StreamAggregatedResources(ctx context.Context, _ ...callopt.Op
 		return nil, fmt.Errorf("fake: stream creation failed")
 	}
 	s := &fakeStream{ads: a, id: len(a.streams), recvCh: make(chan recvItem, 4096), markers: make(chan string, 64)}
+	if a.failFirst > 0 {
+		a.failFirst--
+		s.sendErrs = 1
+	}
 	a.streams = append(a.streams, s)
 	select {
 	case a.created <- s:
